@@ -8,6 +8,9 @@ from vlib import Verdict
 
 PID = "C03"
 FAULTS = ["dropreq", "dropresp", "cancelresp", "regionerr:NotLeader", "regionerr:EpochNotMatch", "regionerr:ServerIsBusy", "regionerr:StaleCommand"]
+# what the caller of SendRequest sees when a request / its answer is lost: the transport reports it as one of a family of
+# errors, and the client's classification (is it an RPC error? may the request have been applied?) branches on them
+ERRKINDS = ["ctx_canceled", "ctx_deadline", "grpc_canceled", "grpc_unavailable", "grpc_deadline", "grpc_unknown", "eof"]
 HOOKS = ["split", "expire_resolve", "push_min_commit", "reader_clockjump"]
 
 
@@ -84,7 +87,7 @@ def main(tier, replay):
     cov["fallback_shapes"] = sum(1 for b in base if b[-1])
     probes = [txnlab.mk_scenario(f"p{i}", sh, mode, pess, **txnlab.fbkw(fb)) for i, (sh, mode, pess, fb) in enumerate(base)]
     pres = txnlab.run_scenarios(exe, probes)
-    cases = []
+    cases, lostkinds = [], []
     for (sh, mode, pess, fb), pr in zip(base, pres):
         n = min(pr.get("counted", 0), 12)
         tag = f"{sh['name']}-{mode}{'fb' if fb else ''}-{'p' if pess else 'o'}"
@@ -95,6 +98,11 @@ def main(tier, replay):
         for i in range(n):
             for fk in FAULTS:
                 cases.append(mk(f"{tag}-{i}-{fk}", sh, mode, pess, faults=[{"at": i, "kind": fk}]))
+            # the answer of an applied request is lost, reported in every way the transport knows; a lost request in two of them
+            for ek in ERRKINDS:
+                lostkinds.append(mk(f"{tag}-{i}-dropresp:{ek}", sh, mode, pess, faults=[{"at": i, "kind": f"dropresp:{ek}"}]))
+            for ek in rng.sample(ERRKINDS, 2):
+                lostkinds.append(mk(f"{tag}-{i}-dropreq:{ek}", sh, mode, pess, faults=[{"at": i, "kind": f"dropreq:{ek}"}]))
             for hk in HOOKS:
                 if hk == "reader_clockjump":
                     # the reader meets ONE key's lock (so also a secondary's before the primary's), and its clock jumps by
@@ -122,6 +130,10 @@ def main(tier, replay):
     if tier == "quick" and len(cases) > 1400:
         rng.shuffle(cases)
         cases = cases[:1400]
+    if tier == "quick" and len(lostkinds) > 700:
+        rng.shuffle(lostkinds)
+        lostkinds = lostkinds[:700]
+    cases += lostkinds
     allsc = probes + cases
     res = txnlab.run_scenarios(exe, allsc)
     nviol, distinct, dist = 0, set(), {}
